@@ -115,6 +115,10 @@ func renderRef(a absRef, canonical bool) string {
 			} else {
 				b.WriteString("ué")
 			}
+		case "dot":
+			b.WriteString(".")
+		case "dd":
+			b.WriteString("..")
 		case "dup":
 			// an empty segment: the separators around it form a doubled slash
 		}
@@ -128,6 +132,8 @@ func renderRef(a absRef, canonical bool) string {
 		b.WriteString("#/a~1b~0c")
 	case "pct":
 		b.WriteString("#/a%25b")
+	case "anchor":
+		b.WriteString("#anchor")
 	}
 	return b.String()
 }
